@@ -130,6 +130,19 @@ class CusumF(_Scalar):
         return CUSUM(**cfg)
 
     def history(self, rng, cfg, n):
+        if rng.random() < 0.2:
+            # a quantised step signal: stretches of exactly equal values of random length (1 .. 3*burn_in), a few noisy stretches in
+            # between.  Whenever the window the statistics are estimated from is flat, sd_hat = 0 and the documented ValueError ends
+            # the history (DESIGN §6) -- unless an implementation carries on, and then the lifecycle contract still binds it
+            out, lvl = [], 0.0
+            while len(out) < n:
+                seg = int(rng.integers(1, 3 * cfg["burn_in"] + 2))
+                if rng.random() < 0.3:
+                    out += [lvl + float(rng.integers(-32, 33)) / 64.0 for _ in range(seg)]
+                else:
+                    out += [lvl] * seg
+                lvl = float(rng.integers(-3, 4)) * 2.0
+            return out[:n]
         # continuous noise: a constant burn-in window would make sd_hat = 0 (degenerate, DESIGN §6)
         return [x + float(rng.integers(1, 64)) / 1024.0 for x in _levels_stream(rng, n, 0.02)]
 
